@@ -16,6 +16,12 @@ checks = {
  'C16': ('exploration', 'runtime monitor: expected-by-construction oracle (the generator records the line of every call and of the failing statement) over call chains of depth 0..8 across main script and source modules; invariance under optimizer, encode/decode and k prepended lines',
    'The reported StackTrace must equal the constructed (file,line) list exactly, every position must lie inside its file, and the list must be identical with the optimizer on/off, after encode->decode, and shifted by exactly k after prepending k blank/comment lines; compile/parse error positions are checked on planted errors.',
    'generator bookkeeping of line numbers; recursion/self tail calls excluded (statement silent)', 'DESIGN.md §3 C16'),
+ 'C17': ('exploration', 'runtime monitor: differential oracle against encoding/json (Marshal bytes, Unmarshal accept/reject and value, round trip, Valid/Compact/Indent) + JSON-validity check of every Marshal output + panic monitor, on the Go API, Function.Value/ValueEx and a compiled script',
+   'Seeded values of every uGO type (incl. functions, errors, sync maps, time, RawMessage, EncoderOptions, float edges, hostile strings, nesting to 5000, cycles) and documents (generated valid JSON, mutations, a 1700-entry edge list, nesting around 10000, arbitrary bytes) are run through the module and through encoding/json. Held on what was run.',
+   'trusts the sandbox toolchain\'s encoding/json as the reference; \\b/\\f spelling and nil-vs-empty containers are normalised (documented reference changes)', 'DESIGN.md §3 C17'),
+ 'C18': ('fault_enumeration', 'runtime monitor: panic/crash/allocation sanitizer (recover, child-crash attribution under RLIMIT_AS, TotalAlloc delta with heap-profile site attribution) over EVERY truncation and single-byte substitution (and double-byte / length-field rewrites) of a corpus of valid v2 and v1 encodings, plus random bytes',
+   'About 480 bytecode seeds and 130 object/source-file seeds are corrupted exhaustively at the byte level and fed to every decoding entry point; a panic, a crash or an allocation above 1 MiB + 256 x len(input) is a violation. Exhaustive for single-byte corruptions and truncations of the corpus, sampled beyond.',
+   'inputs capped at ~8 KiB; deterministic re-encoder c18_enc.go validated against the real decoder', 'DESIGN.md §3 C18'),
  'C19': ('exploration', 'runtime monitor: panic/crash/allocation sanitizer (recover, child-crash attribution under RLIMIT_AS, TotalAlloc delta, hang deadline for size bombs) over every builtin/stdlib callable x boundary-pool argument tuples on three call routes',
    '282 callables (builtins, error.New, fmt/json/strings/time functions, Time/Location methods) x all tuples of length 0..2 from a 58-value pool (length 3 exhaustive where arity allows, 4..8 sampled in thorough) via direct Go call, CallEx on a live VM, and a compiled script without recovery. Result must be object xor error.',
    'gray-zone sizes (256MiB..2^40) are skipped; one 10 s deadline is used only for calls with an integer argument >= 2^40', 'DESIGN.md §3 C19'),
